@@ -49,3 +49,26 @@ def cost(sp):
     for m in sp["machines"]:
         c *= len(m)
     return c * (2 if sp.get("filter", "none") != "none" else 1)
+
+
+def attach_library_observers(disp, inst, graph="atj"):
+    """Subscribes one of every observer the library ships to `disp` (history, unscheduled-operations, every feature
+    observer and a composite of them, both reward observers, a residual graph updater on a freshly built graph).
+    Used by 'observed' sub-spaces: the library's own observers must not disturb what the dispatcher reports."""
+    from job_shop_lib.dispatching import HistoryObserver, UnscheduledOperationsObserver
+    from job_shop_lib.dispatching.feature_observers import (FeatureObserverType, feature_observer_factory,
+                                                            CompositeFeatureObserver)
+    from job_shop_lib.graphs import (build_disjunctive_graph, build_agent_task_graph, build_agent_task_graph_with_jobs,
+                                     build_complete_agent_task_graph)
+    from job_shop_lib.graphs.graph_updaters import ResidualGraphUpdater
+    from job_shop_lib.reinforcement_learning import MakespanReward, IdleTimeReward
+
+    builders = {"disj": build_disjunctive_graph, "at": build_agent_task_graph, "atj": build_agent_task_graph_with_jobs,
+                "cat": build_complete_agent_task_graph}
+    obs = [disp.create_or_get_observer(HistoryObserver), disp.create_or_get_observer(UnscheduledOperationsObserver)]
+    feats = [feature_observer_factory(t, dispatcher=disp) for t in FeatureObserverType]
+    obs += feats
+    obs.append(CompositeFeatureObserver(disp, feature_observers=feats))
+    obs += [MakespanReward(disp), IdleTimeReward(disp)]
+    obs.append(ResidualGraphUpdater(disp, builders[graph](inst)))
+    return obs
